@@ -21,6 +21,7 @@ Definition policy_of (k : int) (n : Z) : option policy :=
   | 8 => Some PNone | 9 => Some PNoCache | 10 => Some PExpiresInvalid
   | 11 => Some PMalformed | 12 => Some (PBadDate n)
   | 13 => Some (PNoStoreMaxAge n) | 14 => Some (PMustRevalidate n) | 15 => Some (PNoCacheMaxAge n)
+  | 16 => Some (PRaw n)
   | _ => None
   end%Z.
 
@@ -32,6 +33,7 @@ Definition policy_code (p : policy) : Z * Z :=
   | PNone => (8, 0) | PNoCache => (9, 0) | PExpiresInvalid => (10, 0)
   | PMalformed => (11, 0) | PBadDate n => (12, n)
   | PNoStoreMaxAge n => (13, n) | PMustRevalidate n => (14, n) | PNoCacheMaxAge n => (15, n)
+  | PRaw n => (16, n)
   end%Z.
 
 Definition policy_eqb (a b : policy) : bool :=
@@ -44,18 +46,23 @@ Definition policy_eqb (a b : policy) : bool :=
    cachecontrol.CachableResponse said store (no error, no reasons) and returned an expiry of call
    time +-l seconds, or the zero time; cacheobject.ParseResponseCacheControl reported NoCachePresent
    = nocache *)
+(* sf sr sn: what RFC 7234 says about the text that was handed to the library (directive names are
+   case-insensitive): it forbids storing (no-store / private), demands revalidation (no-cache), has no
+   freshness information — written by the harness's own header parser, used only to check the
+   assumption `cc_respects_headers` on header sets the model knows by number only (PRaw) *)
 Inductive ccentry := CCE (pk : int) (neg : bool) (n : int) (store : bool)
-                         (haslt : bool) (lneg : bool) (l : int) (nocache : bool).
+                         (haslt : bool) (lneg : bool) (l : int) (nocache : bool)
+                         (sf sr sn : bool).
 
 Definition cc_of_table (tab : list ccentry) (p : policy) : option ccdec :=
   match find (fun e => match e with
-                       | CCE pk neg n _ _ _ _ _ =>
+                       | CCE pk neg n _ _ _ _ _ _ _ _ =>
                            match policy_of pk (zs neg n) with
                            | Some q => policy_eqb p q
                            | None => false
                            end
                        end) tab with
-  | Some (CCE _ _ _ store haslt lneg l nocache) =>
+  | Some (CCE _ _ _ store haslt lneg l nocache _ _ _) =>
       Some (store, (if haslt then Some (zs lneg l) else None), nocache)
   | None => None
   end.
@@ -70,11 +77,11 @@ Definition no_freshness_b (p : policy) : bool :=
 
 Definition cc_table_respects_headers (tab : list ccentry) : bool :=
   forallb (fun e => match e with
-                    | CCE pk neg n store haslt _ _ nocache =>
+                    | CCE pk neg n store haslt _ _ nocache sf sr sn =>
                         match policy_of pk (zs neg n) with
-                        | Some p => (if forbids_b p then negb store else true) &&
-                                    (if revalidate_b p then nocache else true) &&
-                                    (if no_freshness_b p then negb haslt else true)
+                        | Some p => (if forbids_b p || sf then negb store else true) &&
+                                    (if revalidate_b p || sr then nocache else true) &&
+                                    (if no_freshness_b p || sn then negb haslt else true)
                         | None => false
                         end
                     end) tab.
